@@ -83,6 +83,11 @@ func rulePending(c *Ctx) {
 			if good {
 				a := accs[0].call.Common().Args
 				good = m.convOfParam(lval{a[len(a)-1], accs[0].fn, accs[0].chain}, fn, 1) && !inLoopAnyLevel(linstr{accs[0].call, accs[0].chain})
+				// ... whatever the value: no return is reached without it
+				if good && !unconditionalAt(linstr{accs[0].call, accs[0].chain}) {
+					c.bad(name, c.pos(fn.Pos()), name, "Rest can return without adding ticks(value) to the pending delta (the addition stands under a condition): some rests take no time and everything after them comes early")
+					continue
+				}
 			} else if len(ems) == 0 && len(probs) == 0 && len(takes) == 0 && len(accs) == 0 {
 				good = m.restAccumulatesInline(fn)
 			}
@@ -143,6 +148,36 @@ func rulePending(c *Ctx) {
 			for _, leaf := range leaves {
 				if leaf.v == takes[0].call.Value() && sameChain(leaf.chain, takes[0].chain) {
 					usesPending = true
+					// the event that carries the pending time is written whenever the time is taken: nothing but the
+					// structure of a loop over the keys (its bound, which round it is) stands in front of it
+					already := map[ssa.Value]bool{} // decided before the delta was taken: no time is lost on the other side
+					for _, g := range guardsAlong(take, 0) {
+						already[m.tr.trace(g.cond).v] = true
+					}
+					for _, g := range guardsAlong(e.sink, 0) {
+						gl := m.tr.trace(g.cond)
+						if already[gl.v] {
+							continue
+						}
+						cmp, isCmp := gl.v.(*ssa.BinOp)
+						if isCmp {
+							onIndex := false
+							for _, side := range []ssa.Value{cmp.X, cmp.Y} {
+								if phi, ok := side.(*ssa.Phi); ok && isLoopHeader(phi.Block()) {
+									onIndex = true
+								}
+								if b, ok := side.(*ssa.BinOp); ok {
+									if phi, ok := b.X.(*ssa.Phi); ok && isLoopHeader(phi.Block()) {
+										onIndex = true
+									}
+								}
+							}
+							if onIndex {
+								continue
+							}
+						}
+						problem = "the pending delta is taken, but the event that carries it is written only under a condition (`" + gl.v.String() + "`): when it is not, the elapsed rest is lost"
+					}
 					continue
 				}
 				if k, ok := constInt(leaf.v); ok && k == 0 {
@@ -416,6 +451,24 @@ func ruleTrackAdd(c *Ctx) {
 			}
 		}
 	})
+	if !cleared {
+		// a take-and-clear helper on the same track (`op.TickDelta += t.takeTickDelta()`)
+		for _, ci := range callsIn(ta) {
+			h := staticCallee(ci.Common())
+			if h == nil || !c.isHelper(ta, h) || len(h.Blocks) != 1 || len(ci.Common().Args) == 0 || ci.Common().Args[0] != ssa.Value(ta.Params[0]) {
+				continue
+			}
+			allInstrs(h, func(in ssa.Instruction) {
+				if st, ok := in.(*ssa.Store); ok {
+					if n, base, ok := fieldName(st.Addr); ok && n == "tickDelta" && base == ssa.Value(h.Params[0]) {
+						if k, ok := constInt(st.Val); ok && k == 0 {
+							cleared = true
+						}
+					}
+				}
+			})
+		}
+	}
 	straight := len(ta.Blocks) == 1
 	c.check(folded && appended && cleared && straight, name, c.pos(ta.Pos()), name, "op.TickDelta += pending; append; pending = 0", fmt.Sprintf("%s: folded=%v appended=%v cleared=%v single-path=%v — the track's pending delay is no longer moved into the op exactly once", name, folded, appended, cleared, straight))
 	// AddTickDelta accumulates
@@ -450,12 +503,17 @@ type loopInfo struct {
 	blocks map[*ssa.BasicBlock]bool
 	index  ssa.Value // the per-iteration index value: 0, 1, 2, ...
 	bound  ssa.Value // the loop runs while index < bound
+	start  int64     // the first value of the index (0, or 1 for a loop whose first round was peeled off)
 }
 
 // enclosingRangeLoop finds the innermost counted loop containing b, in either SSA shape:
 // `for i := range xs` (phi starts at -1, index = phi+1, test at the header) and
 // `for i := range n` (rotated: phi starts at 0, index = phi, test at the latch).
-func enclosingRangeLoop(b *ssa.BasicBlock) *loopInfo {
+func enclosingRangeLoop(b *ssa.BasicBlock) *loopInfo { return enclosingCountedLoop(b, false) }
+
+// enclosingCountedLoop: as enclosingRangeLoop; with from1 also a loop whose index starts at 1 (the first round was
+// peeled off and written out in front of the loop). loopInfo.start says where the index starts.
+func enclosingCountedLoop(b *ssa.BasicBlock, from1 bool) *loopInfo {
 	fn := b.Parent()
 	var best *loopInfo
 	for _, h := range fn.Blocks {
@@ -493,10 +551,10 @@ func enclosingRangeLoop(b *ssa.BasicBlock) *loopInfo {
 				}
 				next = e
 			}
-			if !okShape || next == nil || (start != -1 && start != 0) {
+			if !okShape || next == nil || (start != -1 && start != 0 && !(from1 && start == 1)) {
 				continue
 			}
-			l := &loopInfo{header: h, blocks: blocks}
+			l := &loopInfo{header: h, blocks: blocks, start: max(start, 0)}
 			if start == -1 {
 				l.index = next
 			} else {
@@ -621,17 +679,41 @@ func ruleNote(c *Ctx) {
 			}
 			return m.convOfParam(l, fn, 1)
 		}
+		// the first round may be peeled off: one emission for key[0] on track 0 with the time, written out in front of a
+		// loop that starts at 1 and gives every other key delta 0
+		var peeled []*emission
 		for _, e := range ss {
+			inAny := false
+			for k := len(e.sink.chain); k >= 0; k-- {
+				if enclosingCountedLoop(e.sink.at(k).Block(), true) != nil {
+					inAny = true
+				}
+			}
+			if !inAny {
+				peeled = append(peeled, e)
+			}
+		}
+		if len(peeled) != 1 || len(ss) < 2 {
+			peeled = nil
+		}
+		for _, e := range ss {
+			if len(peeled) == 1 && e == peeled[0] {
+				continue
+			}
 			var loop *loopInfo
 			level := -1
 			for k := len(e.sink.chain); k >= 0; k-- {
-				if l := enclosingRangeLoop(e.sink.at(k).Block()); l != nil {
+				if l := enclosingCountedLoop(e.sink.at(k).Block(), len(peeled) == 1); l != nil {
 					loop, level = l, k
 					break
 				}
 			}
 			if loop == nil {
 				problems = append(problems, label+" is emitted outside a loop over the keys")
+				continue
+			}
+			if (loop.start == 1) != (len(peeled) == 1) {
+				problems = append(problems, label+": the loop over the keys does not start at the first key that has no emission of its own")
 				continue
 			}
 			loc := lval{nil, e.sink.at(level).Parent(), e.sink.chain[:level]}
@@ -682,6 +764,15 @@ func ruleNote(c *Ctx) {
 				problems = append(problems, label+" delta cannot be resolved")
 				continue
 			}
+			if loop.start == 1 {
+				// every key the loop visits comes after the first: delta 0 whatever the path
+				for _, a := range m.tr.alts(e.delta, 0) {
+					if k, isConst := constInt(a.leaf.v); !isConst || k != 0 {
+						problems = append(problems, fmt.Sprintf("%s delta: the op for key 0 must carry %s and all others 0", label, firstName[label]))
+					}
+				}
+				continue
+			}
 			for _, a := range m.tr.alts(e.delta, 0) {
 				zero, known, feasible := false, false, true
 				for _, g := range append(append([]gcond{}, siteGuards...), a.conds...) {
@@ -705,6 +796,52 @@ func ruleNote(c *Ctx) {
 					problems = append(problems, "every "+label+" carries the time value: chord tones after the first are delayed")
 				default:
 					problems = append(problems, fmt.Sprintf("%s delta: the op for key 0 must carry %s and all others 0", label, firstName[label]))
+				}
+			}
+		}
+		if ph != nil && len(peeled) == 1 {
+			// the peeled emission: key[0], channel 0, track 0, the time; in the function of the loop, in front of it, on every path
+			e := peeled[0]
+			in := e.sink.at(ph.level)
+			switch {
+			case len(e.sink.chain) < ph.level || !sameChain(e.sink.chain[:ph.level], ph.sink.chain[:ph.level]) || in.Parent() != ph.loop.header.Parent():
+				problems = append(problems, label+": the emission for the first key is not in the function of the loop over the others")
+			case !in.Block().Dominates(ph.loop.header) || ph.loop.blocks[in.Block()]:
+				problems = append(problems, label+": the emission for the first key does not come in front of the loop over the others on every path")
+			}
+			kv, hasKey := e.fields["Key"]
+			var ia *ssa.IndexAddr
+			if hasKey {
+				ia = indexOfLoad(kv.v)
+			}
+			if ia == nil || !isRootParam(kv.with(ia.X), keyParam) {
+				problems = append(problems, label+".Key of the first emission is not an element of the key parameter")
+			} else if k, ok := constInt(ia.Index); !ok || k != 0 {
+				problems = append(problems, label+".Key of the first emission is not key[0]")
+			}
+			if chv, ok := e.fields["Channel"]; !ok {
+				problems = append(problems, label+".Channel is not the constant 0")
+			} else if ch, ok := constInt(chv.v); !ok || ch != 0 {
+				problems = append(problems, label+".Channel is not the constant 0")
+			}
+			if label == "NoteOn" {
+				if vv, ok := e.fields["Velocity"]; !ok || !isRootParam(vv, velParam) {
+					problems = append(problems, "NoteOn.Velocity is not the velocity parameter")
+				}
+			}
+			if e.kind != "one" || e.typKind != "midix.FixedTrack" {
+				problems = append(problems, label+" is not a fixed-track op handed to TrackSetController.Add")
+			}
+			if tk, ok := constInt(m.tr.trace(e.track).v); !ok || tk != 0 {
+				problems = append(problems, label+"'s track argument for the first key is not 0")
+			}
+			if e.delta.v == nil {
+				problems = append(problems, label+" delta cannot be resolved")
+			} else {
+				for _, a := range m.tr.alts(e.delta, 0) {
+					if !isFirst(a.leaf) {
+						problems = append(problems, fmt.Sprintf("%s delta: the op for key 0 must carry %s and all others 0", label, firstName[label]))
+					}
 				}
 			}
 		}
@@ -1518,6 +1655,41 @@ func ruleTrackCount(c *Ctx) {
 			}
 		}
 		c.check(good, fname(fn), c.pos(fn.Pos()), fname(fn), "--track value -> NewTrackSetControllerFromTrackNum", "the --track flag value no longer reaches the track-set constructor unchanged")
+	} else if root := c.fn("cmd", "newWriteCmdArgsFromInputInstances"); root != nil {
+		// the helper is gone or renamed: the same question asked of what the write command's argument builder reaches
+		c.site(1)
+		tr := c.plainTracer()
+		good := false
+		n := 0
+		for _, rc := range c.regionCalls(root, nil) {
+			if calleeName(rc.call.Common()) != "midix.NewTrackSetControllerFromTrackNum" {
+				continue
+			}
+			n++
+			v := tr.trace(lval{rc.call.Common().Args[0], rc.fn, rc.chain}).v
+			if ex, ok := v.(*ssa.Extract); ok && ex.Index == 0 {
+				if call, ok := ex.Tuple.(*ssa.Call); ok && strings.HasSuffix(calleeName(&call.Call), "pflag.FlagSet.GetInt") {
+					s, _ := constString(call.Call.Args[1])
+					good = s == "track"
+				}
+			}
+		}
+		if !good && n == 1 {
+			// ... or through a field of an options value that is filled from the flag
+			const getTrack = "github.com/spf13/pflag.FlagSet.GetInt(github.com/spf13/cobra.Command.Flags(p0),\"track\")#0"
+			facts := c.facts(root)
+			for _, f := range facts {
+				arg, ok := strings.CutPrefix(f, "call midix.NewTrackSetControllerFromTrackNum(")
+				if !ok {
+					continue
+				}
+				arg = strings.TrimSuffix(arg, ")")
+				if arg == getTrack || (strings.HasPrefix(arg, "var<") && hasFact(facts, "store "+arg+" <- "+getTrack)) {
+					good = true
+				}
+			}
+		}
+		c.check(good && n == 1, "cmd.getTrackSetController", c.pos(root.Pos()), fname(root), "--track value -> NewTrackSetControllerFromTrackNum", "the --track flag value no longer reaches the track-set constructor unchanged")
 	} else {
 		c.missing("cmd.getTrackSetController")
 	}
@@ -1632,7 +1804,23 @@ func ruleTrackCount(c *Ctx) {
 	if problem == "" && !tf {
 		problem = "the header's TimeFormat is not the writer's clock (header division and tick arithmetic disagree)"
 	}
-	c.check(problem == "", name, c.pos(fn.Pos()), name, "every track 0..Len()-1 serialised; division = clock", name+": "+problem)
+	// the file format is the library's choice from the number of tracks (smf.New: format 0 for one track, 1 for more):
+	// no other constructor, no write to a format field
+	for rf := range regionFns {
+		allInstrs(rf, func(in ssa.Instruction) {
+			if ci, ok := in.(ssa.CallInstruction); ok {
+				if n := calleeName(ci.Common()); strings.Contains(n, "/smf.New") && !strings.HasSuffix(n, "/smf.New") {
+					problem = "the SMF is made with " + n[strings.LastIndex(n, "/")+1:] + " instead of smf.New: the header's format no longer follows from the number of tracks (format 0 for one track)"
+				}
+			}
+			if st, ok := in.(*ssa.Store); ok {
+				if n, base, ok := fieldName(st.Addr); ok && strings.Contains(strings.ToLower(n), "format") && n != "TimeFormat" && strings.Contains(typeName(base.Type()), "smf.SMF") {
+					problem = "the SMF's " + n + " is set by hand: the header's format no longer follows from the number of tracks"
+				}
+			}
+		})
+	}
+	c.check(problem == "", name, c.pos(fn.Pos()), name, "every track 0..Len()-1 serialised; division = clock; format chosen by smf.New", name+": "+problem)
 }
 
 // restAccumulatesInline: fn is a single block that stores pending + ticks(value parameter) into the pending field and nothing else.
@@ -1669,4 +1857,16 @@ func (m *writerModel) restAccumulatesInline(fn *ssa.Function) bool {
 		}
 	})
 	return n == 1 && good
+}
+
+// unconditionalAt: at every level of the call chain, no return of the function is reached without passing the
+// instruction (or the call that leads to it).
+func unconditionalAt(li linstr) bool {
+	for k := 0; k <= len(li.chain); k++ {
+		at := li.at(k)
+		if bypassReturn(at.Parent(), at.Block(), func(*ssa.If) int { return -1 }) != nil {
+			return false
+		}
+	}
+	return true
 }
